@@ -134,6 +134,49 @@ def ob_try_parse(report):
                    ['try_parse_timeout'], {'str::parse::<u64>': 'uninterpreted Result<u64> of the text (grammar decided by Kani c11_parse_u64_*)', 'n': 'all 2^64'}, body)
 
 
+def ob_duration_header(report):
+    """duration_to_timeout: the header a caller sends for a deadline d is min(d in ns, u64::MAX) in decimal"""
+    def body(ob):
+        nanos = z3.BitVec('nanos', 128)
+
+        def m_as_nanos(ex, p, call, k):
+            k(p, nanos)
+
+        def m_to_string(ex, p, call, k):
+            v = ex.deref(p, call.args[0]) if isinstance(call.args[0], Ptr) else call.args[0]
+            p.events.append(Event('rendered', call.short, (v,)))
+            k(p, Sym('header_text', 'String'))
+        ex = e2.executor('anemo', [(r'Duration::as_nanos$', m_as_nanos), (r'as ToString>::to_string$', m_to_string)], max_depth=2)
+        fn = find_fn(ex.prog, r'(^|::)duration_to_timeout$')
+        res = ex.run(fn, [Sym('d', 'std::time::Duration')])
+        n = 0
+        for r in res:
+            if r.tag != 'return':
+                return viol(ob, [ex], f'duration_to_timeout can {r.tag}', 'header-abnormal', path_summary(r), len(res))
+            rd = [e for e in r.events if e.kind == 'rendered']
+            if len(rd) != 1 or not (isinstance(rd[0].args[0], z3.ExprRef) and z3.is_bv(rd[0].args[0]) and rd[0].args[0].size() == 64) or vname(r.ret) != 'header_text':
+                return ob.done([ex], 'inconclusive', f'the header text is not the decimal rendering of one u64: {[vrepr(e.args[0]) for e in rd]}', paths=len(res))
+            v = rd[0].args[0]
+            mx = z3.BitVecVal(2**64 - 1, 128)
+            want = z3.If(z3.ULE(nanos, mx), z3.Extract(63, 0, nanos), z3.BitVecVal(2**64 - 1, 64))
+            dmax = z3.BitVecVal((2**64 - 1) * 10**9 + 999_999_999, 128)        # Duration::MAX in ns
+            q, m, _ = e2.solve(r.pc + [z3.ULE(nanos, dmax), v != want])
+            ex.queries += 1
+            if q != 'unsat':
+                cex = {'duration_ns': str(m.eval(nanos, True)), 'header_value': str(m.eval(v, True))} if m is not None else {}
+                o = viol(ob, [ex], f'the timeout header for a deadline of {cex.get("duration_ns")} ns is {cex.get("header_value")}, not min(ns, u64::MAX): a very long deadline wraps to a short one',
+                         'header-saturation', {'counterexample': cex, **path_summary(r)}, len(res))
+                if cex:
+                    kani.confirm_natively(o, PROP, 'timeout', 'verif_replay_c11_timeout_header', {'VERIF_CEX_NANOS': cex['duration_ns']}, 'duration')
+                return o
+            n += 1
+        if not n:
+            return ob.done([ex], 'inconclusive', 'no path', paths=len(res))
+        ob.done([ex], 'held', '', {'paths': len(res)}, paths=len(res))
+    return guarded(report, 'timeout_header_value', 'duration_to_timeout(d) renders min(d.as_nanos(), u64::MAX) for every Duration (128-bit nanoseconds)', ['duration_to_timeout'],
+                   {'nanos': 'all 2^128'}, body)
+
+
 def ob_selection(report, side):
     def body(ob):
         ex = e2.executor('anemo', TIMEOUT_MODELS, max_depth=4)
@@ -161,6 +204,13 @@ def ob_selection(report, side):
             ic = [e for e in r.events if e.kind == 'inner-call']
             if len(ic) != 1 or vname(ic[0].args[0]) != 'inner' or vname(ic[0].args[1]) != 'req':
                 return viol(ob, [ex], f'{side}: the wrapped service is not called exactly once with the original request', f'{side}-inner-call', path_summary(r), len(res))
+            # the request handed on is the request received: the middleware only *reads* it (delivery integrity, C02)
+            muts = [e for e in r.events if e.kind == 'call' and re.search(r'Request::(headers_mut|extensions_mut|route_mut|body_mut|version_mut|map|with_\w+)$|(HashMap|HeaderMap)::(insert|remove|clear|extend|entry|retain|drain)$', str(e.name))]
+            muts += [e for e in r.events if e.kind == 'map' and e.name in ('insert', 'remove') and str(e.args[0].s).startswith('req')]
+            muts += [e for e in r.events if e.kind in ('call', 'enter') and re.search(r'Request::set_\w+$', str(e.name))]
+            if muts:
+                return viol(ob, [ex], f'{side}: the timeout middleware modifies the request it passes on ({muts[0].name}): the handler would see headers/extensions the caller never sent',
+                            f'{side}-request-modified', path_summary(r), len(res))
             if len(sl) > 1:
                 return viol(ob, [ex], f'{side}: more than one deadline armed', f'{side}-multi-sleep', path_summary(r), len(res))
             if not sl:
@@ -319,7 +369,7 @@ def ob_wiring(report):
     def body(ob):
         def m_cfg(ex, p, call, k):
             k(p, Sym('CFG_' + call.short.split('::')[-1], 'Option<Duration>'))
-        ex = e2.executor('anemo', [(r'Config::(inbound|outbound)_request_timeout$', m_cfg)], max_depth=1, unroll=1)
+        ex = e2.executor('anemo', [(r'Config::(inbound|outbound)_request_timeout$', m_cfg)], max_depth=1, unroll=1, fixed_bounds=True)
         ex.path_limit = 20000
         fn = find_method(ex.prog, 'Builder', 'start')
         bf = struct_fields('crates/anemo/src/network/mod.rs', 'Builder')
@@ -355,7 +405,7 @@ def ob_wiring(report):
             if sig not in cache:
                 if ex.closure_fn(clo) is None:
                     return ob.done(exs, 'inconclusive', 'new_cyclic closure body not found', paths=len(res))
-                ex2 = e2.executor('anemo', [(r'Config::(inbound|outbound)_request_timeout$', m_cfg)], max_depth=1, unroll=1)
+                ex2 = e2.executor('anemo', [(r'Config::(inbound|outbound)_request_timeout$', m_cfg)], max_depth=1, unroll=1, fixed_bounds=True)
                 exs.append(ex2)
                 outs = []
                 p = Path()
@@ -434,7 +484,7 @@ def check(report, tier, only=None):
     jobs = [j for j in kani_jobs(tier) if not only or any(s in j.harness for s in only)]
     if jobs:
         kani.build_and_run(PROP, ['root'], jobs, report)
-    obs = [('try_parse', ob_try_parse), ('inbound_deadline', lambda rep: ob_selection(rep, 'inbound')), ('outbound_deadline', lambda rep: ob_selection(rep, 'outbound')),
+    obs = [('try_parse', ob_try_parse), ('timeout_header', ob_duration_header), ('inbound_deadline', lambda rep: ob_selection(rep, 'inbound')), ('outbound_deadline', lambda rep: ob_selection(rep, 'outbound')),
            ('inbound_poll', lambda rep: ob_poll(rep, 'inbound')), ('outbound_poll', lambda rep: ob_poll(rep, 'outbound')),
            ('config', ob_config_accessors), ('wired', ob_wiring), ('peer_call', ob_peer_uses_layer)]
     for n, f in obs:
